@@ -43,7 +43,7 @@ P = {'id': 'C17',
              'src/cache/basic_cache.rs (LruPageCache read with the file-size clamp and the page loop, get_page with invalidation tracker and eviction, prefetch, read_with_prefetch, invalidate_page/range with the page arithmetic as written, '
              'close_file, the file rewritten in place by somebody else with or without a later invalidate_range; SingleLruPageCache) with FileManager::read_page of src/cache/mod.rs (PAGE_SIZE buffer, zero fill, truncation to bytes_read), '
              'src/blob_store/cached_store.rs (put/get/remove/size/contains/len/flush/prefetch_range/enable/disable/set_write_strategy over the virtual file id, own or shared cache, any wrapped store)',
-             'spec-only cells (direct oracle, no mechanism model): FsaCache (bounded, no stale state), the two-thread probe of one LruMap shard (recorded findings)',
+             'spec-only cells (direct oracle, no mechanism model): FsaCache (bounded, no stale state / zero path), the two-thread probe of one LruMap shard (recorded findings), and the oracle-breadth cells */wide, CacheBuffer, FileManager (secondary constructors and entry points, rare key / value types, presets as shipped, options, big capacities and files)',
              'not compiled in the pinned tree and therefore not checked: src/cache/lru_cache.rs, page_cache.rs, sharding.rs, simple_impl.rs (src/cache/mod.rs declares only config, stats, buffer, basic_cache)'],
  'assumptions': ['the key table of LruMap (std HashMap) is a finite map key -> node index; hashers are opaque (key hash and thread-id hash are parameters of the theorems; the wrapped blob store is a parameter too)',
                  'an external rewrite of a cached file keeps its size (FileManager records the size at open_file); the dirty-page set of the tracker has no reader that influences a result and is not represented',
@@ -59,6 +59,6 @@ P = {'id': 'C17',
                'the cached blob store over its virtual file id returns the wrapped store\'s bytes. Extension: invalidate_range drops exactly the pages holding a byte of a non-empty range (page arithmetic as written), close_file drops exactly the file\'s pages; in histories where the file is rewritten behind the cache\'s back every read that visits no rewritten-and-not-yet-invalidated page returns the current bytes, and all reads do when every rewrite is followed by a covering invalidate_range; SingleLruPageCache is its wrapped cache; for every wrapped blob store and every put/get/remove/.../prefetch/enable/disable history (multi-page blobs, shared cache with foreign traffic) the CachedBlobStore shows what the wrapped store shows and does not disturb real-file reads of a shared cache; for RoundRobin and ThreadAffinity routing each shard is an LRU on the operations sent to it (with the two recorded routing findings as refutation theorems). The models are tied to the compiled code on every run by evaluating about 1500 generated histories in Coq (vm_compute) and comparing every result, '
                'callback invocation and read digest with the implementation; a time-stamped reference LRU, the real files and a shadow map serve as a direct oracle on the code.',
  'level_note': 'Trusted: Coq kernel + vm_compute; the hand-written models (agreement with the code is checked on generated histories only); harness generators/oracle. '
-               'Concurrency inside one LruMap (lock order) is not modelled; RoundRobin/ThreadAffinity routing break get-after-put across shards / threads (recorded findings, also proved as refutations on the model) while the per-shard theorems hold; three defects were repaired by fix: commits (clear leaking free nodes, short last page, unclamped reads).',
+               'Concurrency inside one LruMap (lock order) is not modelled; RoundRobin/ThreadAffinity routing break get-after-put across shards / threads (recorded findings, also proved as refutations on the model) while the per-shard theorems hold; three defects were repaired by fix: commits (clear leaking free nodes, short last page, unclamped reads), three more by the oracle-breadth pass (CacheBuffer::reserve leaving the data slice on the freed block, ZeroPathData total_length overflow, read_with_prefetch window overflow). The secondary entry points, presets as shipped, options, size thresholds and rare key / value types of harness/src/c17_wide.rs are checked by the direct oracle only (no model comparison).',
  'technique': 'Coq proof (simulation of the linked node array by a recency list via a representation invariant; induction over the page loop) + model/implementation differential check evaluated by vm_compute + reference-LRU / file-bytes oracle',
  'explanation': 'Unbounded Coq theorems about Gallina models of LruMap, ConcurrentLruMap and LruPageCache + differential check of the models against the compiled code + direct oracle on the code.'}
